@@ -1,6 +1,7 @@
 import GridVerif.Model.Proto
 import GridVerif.Model.Elem
 import GridVerif.Model.NGrid
+import GridVerif.Gen.NGrid
 
 namespace GridVerif.Driver.C18
 open GridVerif.Proto GridVerif.NGrid
@@ -16,6 +17,9 @@ open GridVerif.Proto GridVerif.NGrid
   C18.vec    gridspec <fvec table>             -> ok value | value-error
   C18.vecbad gridspec <fvec table>             -> (integrand returns one value too few) value-error
   C18.chunks c n                               -> ok k len₁ … len_k   (chunk lengths of n items)
+
+  The same operations on the generated programs (Gen/NGrid.lean), run as they are:
+  C18.gen-new / gen-struct / gen-nonvec / gen-vec / gen-vecbad / gen-chunks   (same arguments, same answers)
 -/
 
 def parseGrids : Nat → List String → Option (List (Grid Nat Float) × List String)
@@ -45,6 +49,85 @@ def showRes : Except Err Float → String
   | .ok v => "ok " ++ sFloat v
   | .error .valueError => "value-error"
   | .error .typeError => "type-error"
+  | .error .indexError => "index-error"
+  | .error .nonTermination => "non-termination"
+
+/-- the generated constructor on a grid specification -/
+def parseSpecGen : List String → Option (Except Err (Gen.NGrid.MultiDomainGrid Nat Float) × List String)
+  | mode :: nd :: ng :: rest => do
+    let nd ← pNat nd
+    let ng ← pNat ng
+    let (gs, rest) ← parseGrids ng rest
+    match mode with
+    | "list" => pure (Gen.NGrid.MultiDomainGrid.init gs none, rest)
+    | "repeat" => pure (Gen.NGrid.MultiDomainGrid.init gs (some nd), rest)
+    | _ => none
+  | _ => none
+
+def showResE : Except Err String → String
+  | .ok s => s
+  | .error .valueError => "value-error"
+  | .error .typeError => "type-error"
+  | .error .indexError => "index-error"
+  | .error .nonTermination => "non-termination"
+
+def genIntegrand (g : Gen.NGrid.MultiDomainGrid Nat Float) (table : List Float) (bad : Bool) : Integrand Nat Float :=
+  let f := tableFun ⟨g.grid_list, g._num_domains⟩ table
+  ⟨f, fun pre xs => (xs.map fun x => f (pre ++ [x])).drop (if bad then 1 else 0)⟩
+
+def handleGen : List String → Option String
+  | "C18.gen-new" :: mode :: nd :: ng :: rest => do
+    let nd ← pNat nd
+    let ng ← pNat ng
+    let ns ← rest.mapM pNat
+    if ns.length ≠ ng then none else
+    let gs : List (Grid Nat Float) := ns.map fun n => ⟨List.range n, List.replicate n 1.0⟩
+    let r ← match mode with
+      | "list" => some (Gen.NGrid.MultiDomainGrid.init gs none)
+      | "repeat" => some (Gen.NGrid.MultiDomainGrid.init gs (some nd))
+      | _ => none
+    pure (showResE (r.map fun _ => "ok"))
+  | "C18.gen-struct" :: spec => do
+    let (r, rest) ← parseSpecGen spec
+    if rest ≠ [] then none else
+    pure (showResE do
+      let g ← r
+      let size ← g.size
+      let points ← g.points
+      let weights ← g.weights
+      pure s!"ok {size} {sMat toString points} {sFloats weights}")
+  | "C18.gen-nonvec" :: c :: spec => do
+    let c ← pNat c
+    let (r, rest) ← parseSpecGen spec
+    let (table, rest) ← pVec pFloat rest
+    if rest ≠ [] then none else
+    pure (showResE do
+      let g ← r
+      let v ← g.integrate (genIntegrand g table false) true c
+      pure ("ok " ++ sFloat v))
+  | "C18.gen-vec" :: spec => do
+    let (r, rest) ← parseSpecGen spec
+    let (table, rest) ← pVec pFloat rest
+    if rest ≠ [] then none else
+    pure (showResE do
+      let g ← r
+      let v ← g.integrate (genIntegrand g table false) false 6000
+      pure ("ok " ++ sFloat v))
+  | "C18.gen-vecbad" :: spec => do
+    let (r, rest) ← parseSpecGen spec
+    let (table, rest) ← pVec pFloat rest
+    if rest ≠ [] then none else
+    pure (showResE do
+      let g ← r
+      let v ← g.integrate (genIntegrand g table true) false 6000
+      pure ("ok " ++ sFloat v))
+  | ["C18.gen-chunks", c, n] => do
+    let c ← pNat c
+    let n ← pNat n
+    pure (showResE do
+      let chunks ← Gen.NGrid.chunkedIterator (List.range n) c
+      pure ("ok " ++ sNats (chunks.map List.length)))
+  | _ => none
 
 def handle : List String → Option String
   | "C18.new" :: mode :: nd :: ng :: rest => do
@@ -100,6 +183,6 @@ def handle : List String → Option String
     let c ← pNat c
     let n ← pNat n
     pure ("ok " ++ sNats ((chunked c (List.range n)).map List.length))
-  | _ => none
+  | toks => handleGen toks
 
 end GridVerif.Driver.C18
